@@ -197,6 +197,56 @@ func H10Backends() {
 	}
 }
 
+// H10ReadModifyWrite: what helm's actions do all the time — read a release back
+// (Get / Query / List), change its status, write it with Update — and then the
+// status queries must see the new status and only the new status, on every backend.
+func H10ReadModifyWrite() {
+	relTokens = map[string]*rspb.Release{}
+	bs := newBackends()
+	oldSt := bStatuses[ndChoice("old.status", len(bStatuses))]
+	newSt := bStatuses[ndChoice("new.status", len(bStatuses))]
+	vAssume(oldSt != newSt)
+	how := ndChoice("readVia", 3)
+	withLabel := ndBool("userLabel")
+	for _, b := range bs[:vBound("backends", 3)] {
+		vTag("backend=" + b.name)
+		r := &rspb.Release{Name: "r1", Version: 1, Namespace: "default", Info: &rspb.Info{Status: oldSt}}
+		if withLabel {
+			r.Labels = map[string]string{"team": "x"}
+		}
+		key := bkey("r1", 1)
+		if err := b.d.Create(key, r); err != nil {
+			vFail("setup/create")
+		}
+		var got *rspb.Release
+		switch how {
+		case 0:
+			g, err := b.d.Get(key)
+			vAssert("rmw/get", err == nil && g != nil)
+			got = g
+		case 1:
+			l, err := b.d.Query(map[string]string{"name": "r1", "owner": "helm", "status": string(oldSt)})
+			vAssert("rmw/query", err == nil && len(l) == 1)
+			got = l[0]
+		case 2:
+			l, err := b.d.List(func(*rspb.Release) bool { return true })
+			vAssert("rmw/list", err == nil && len(l) == 1)
+			got = l[0]
+		}
+		got.Info.Status = newSt
+		vAssert("rmw/update-ok", b.d.Update(key, got) == nil)
+		stale, err := b.d.Query(map[string]string{"name": "r1", "owner": "helm", "status": string(oldSt)})
+		vAssert("rmw/old-status-no-longer-matches", len(stale) == 0 && errors.Is(err, ErrReleaseNotFound))
+		fresh, err := b.d.Query(map[string]string{"name": "r1", "owner": "helm", "status": string(newSt)})
+		vAssert("rmw/new-status-matches", err == nil && len(fresh) == 1 && fresh[0].Info.Status == newSt)
+		back, err := b.d.Get(key)
+		vAssert("rmw/reads-back-updated", err == nil && back.Info.Status == newSt && back.Version == 1 && back.Name == "r1")
+		if withLabel {
+			vAssert("rmw/user-label-kept", back.Labels["team"] == "x")
+		}
+	}
+}
+
 // H20Corrupt: one stored record whose body does not decode, next to a good one.
 func H20Corrupt() {
 	relTokens = map[string]*rspb.Release{}
